@@ -353,10 +353,10 @@ ea_initials(void)
 }
 
 /* =====================  elastic queue  ===================== */
-enum { EQ_INIT = 1, EQ_ADD, EQ_DELETE };
-static const char * const eq_kname[] = {"?", "init", "add", "delete"};
-static const char * eq_opname(uint32_t op, char * b, size_t n){ snprintf(b, n, "%s", op <= EQ_DELETE ? eq_kname[op] : "?"); return b; }
-static const char * eq_opclass(uint32_t op){ return op <= EQ_DELETE ? eq_kname[op] : "?"; }
+enum { EQ_INIT = 1, EQ_ADD, EQ_DELETE, EQ_ADD_OOM };
+static const char * const eq_kname[] = {"?", "init", "add", "delete", "add-with-dead-allocator-then-retry"};
+static const char * eq_opname(uint32_t op, char * b, size_t n){ snprintf(b, n, "%s", op <= EQ_ADD_OOM ? eq_kname[op] : "?"); return b; }
+static const char * eq_opclass(uint32_t op){ return op <= EQ_ADD_OOM ? eq_kname[op] : "?"; }
 static uint8_t rb(size_t j, size_t b){ return (uint8_t)(j * 29 + b * 7 + 1); }	/* byte b of the record with sequence number j */
 
 /* state: offset(1) len(1) easize(2) ealloc(2) */
@@ -414,9 +414,19 @@ eq_edge(const uint8_t * s, size_t len, uint32_t op)
 	}
 	EQ = eq_restore(s); mlen = s[1];
 	if (replaying) printf("   before: offset %d, len %d, array size %zu, alloc %zu\n", s[0], s[1], get16(s + 2), get16(s + 4));
-	if (op == EQ_ADD) {
+	if (op == EQ_ADD || op == EQ_ADD_OOM) {
 		rec = __real_malloc(R); for (p = 0; p < R; p++) rec[p] = rb(mlen, p);
-		LIB(rc = elasticqueue_add(EQ, rec)); __real_free(rec);
+		if (op == EQ_ADD_OOM) {
+			/* first with a dead allocator: either no allocation was needed, or the add fails and leaves the queue as it was */
+			size_t o0 = verif_eq_offset(EQ), l0 = verif_eq_len(EQ), z0 = verif_ea_size(verif_eq_ea(EQ)), a0 = verif_ea_alloc(verif_eq_ea(EQ));
+			oom = 1; LIB(rc = elasticqueue_add(EQ, rec)); oom = 0;
+			if (rc != 0) {
+				if (verif_eq_offset(EQ) != o0 || verif_eq_len(EQ) != l0 || verif_ea_size(verif_eq_ea(EQ)) != z0 || verif_ea_alloc(verif_eq_ea(EQ)) != a0) fail("failed-add", "elasticqueue_add reported failure but the queue changed (offset %zu->%zu, len %zu->%zu, array %zu/%zu->%zu/%zu)", o0, verif_eq_offset(EQ), l0, verif_eq_len(EQ), z0, a0, verif_ea_size(verif_eq_ea(EQ)), verif_ea_alloc(verif_eq_ea(EQ)));
+				LIB(rc = elasticqueue_add(EQ, rec));
+			}
+		} else
+		LIB(rc = elasticqueue_add(EQ, rec));
+		__real_free(rec);
 		if (rc) vf_engine_error("elasticqueue_add failed");
 		if (!eq_check(EQ, 0, mlen + 1)) eq_emit(EQ, op, 0); else S.E.transitions++;
 	} else {
@@ -433,11 +443,12 @@ eq_succ(struct es * E, const uint8_t * s, size_t len, void * ctx)
 	(void)E; (void)ctx;
 	if (esh_located(&S)) return;
 	if (s[1] < cur.cap) { nblk = 0; eq_edge(s, len, EQ_ADD); if (esh_located(&S)) return; }
+	if (s[1] < cur.cap) { nblk = 0; eq_edge(s, len, EQ_ADD_OOM); if (esh_located(&S)) return; }
 	nblk = 0; eq_edge(s, len, EQ_DELETE);
 }
 
 /* =====================  sequential pointer map  ===================== */
-enum { SP_INIT = 1, SP_ADD, SP_DELETE };
+enum { SP_INIT = 1, SP_ADD, SP_DELETE, SP_ADD_OOM };
 #define SPOP(k, c) (((uint32_t)(k) << 16) | (uint32_t)(c))
 #define SP_M1 1000
 #define SP_MIN 1001
@@ -459,13 +470,14 @@ sp_opname(uint32_t op, char * b, size_t n)
 	unsigned k = op >> 16, c = op & 0xffff;
 	if (k == SP_INIT) snprintf(b, n, "init");
 	else if (k == SP_ADD) snprintf(b, n, "add");
+	else if (k == SP_ADD_OOM) snprintf(b, n, "add-with-dead-allocator-then-retry");
 	else if (c == SP_M1) snprintf(b, n, "delete(-1)");
 	else if (c == SP_MIN) snprintf(b, n, "delete(INT64_MIN)");
 	else if (c == SP_MAX) snprintf(b, n, "delete(INT64_MAX)");
 	else snprintf(b, n, "delete(offset%+d)", (int)c - 2);
 	return b;
 }
-static const char * sp_opclass(uint32_t op){ unsigned k = op >> 16; return k == SP_INIT ? "init" : k == SP_ADD ? "add" : "delete"; }
+static const char * sp_opclass(uint32_t op){ unsigned k = op >> 16; return k == SP_INIT ? "init" : k == SP_ADD ? "add" : k == SP_ADD_OOM ? "add-oom" : "delete"; }
 
 /* state: virgin(1) len(1) bitmap(2) eqoff(1) eqlen(1) easize(2) ealloc(2) */
 #define SPLEN 10
@@ -535,7 +547,16 @@ sp_edge(const uint8_t * s, size_t len, uint32_t op)
 	}
 	M = sp_restore(s); mlen = s[1]; mbm = get16(s + 2);
 	if (replaying) printf("   before: offset %lld, len %zu, live bitmap 0x%lx, queue offset %d len %d, array size %zu alloc %zu\n", (long long)sp_base, mlen, mbm, s[4], s[5], get16(s + 6), get16(s + 8));
-	if (k == SP_ADD) {
+	if (k == SP_ADD || k == SP_ADD_OOM) {
+		if (k == SP_ADD_OOM) {
+			/* first with a dead allocator: the add either needs no allocation or fails leaving the map as it was; then the caller retries */
+			int64_t o0 = verif_spm_offset(M); size_t l0 = verif_spm_len(M), q0 = verif_eq_len(verif_spm_eq(M));
+			oom = 1; LIB(r = seqptrmap_add(M, &tags[mlen])); oom = 0;
+			if (r == -1) {
+				if (verif_spm_offset(M) != o0 || verif_spm_len(M) != l0 || verif_eq_len(verif_spm_eq(M)) != q0) fail("failed-add", "seqptrmap_add reported failure but the map changed (len %zu->%zu, queue len %zu->%zu)", l0, verif_spm_len(M), q0, verif_eq_len(verif_spm_eq(M)));
+				LIB(r = seqptrmap_add(M, &tags[mlen]));
+			}
+		} else
 		LIB(r = seqptrmap_add(M, &tags[mlen]));
 		if (r == -1) vf_engine_error("seqptrmap_add failed");
 		if (r != sp_base + (int64_t)mlen) fail("number", "add returned %lld, the next consecutive number is %lld", (long long)r, (long long)(sp_base + (int64_t)mlen));
@@ -556,6 +577,7 @@ sp_succ(struct es * E, const uint8_t * s, size_t len, void * ctx)
 	unsigned c; (void)E; (void)ctx;
 	if (esh_located(&S)) return;
 	if (s[1] < cur.cap) { nblk = 0; sp_edge(s, len, SPOP(SP_ADD, 0)); if (esh_located(&S)) return; }
+	if (s[1] < cur.cap) { nblk = 0; sp_edge(s, len, SPOP(SP_ADD_OOM, 0)); if (esh_located(&S)) return; }
 	for (c = 0; c <= SP_MAX; c = (c == (unsigned)s[1] + 3) ? SP_M1 : c + 1) { nblk = 0; sp_edge(s, len, SPOP(SP_DELETE, c)); if (esh_located(&S)) return; }
 }
 
